@@ -487,7 +487,7 @@ Proof.
     + intros e Hin Hc. destruct (Hclass e Hin Hc) as (g' & Eg & ->). congruence.
   - apply lastcov_none, covered_false_forall. intros e Hin.
     destruct (ev_covers r0 c0 e) eqn:E; [|reflexivity].
-    destruct (Hclass e Hin E) as (g' & Eg & _). discriminate.
+    destruct (Hclass e Hin E) as (g' & Eg & _). congruence.
 Qed.
 
 End PadShow.
